@@ -69,6 +69,17 @@ def constraints(a, st, atoms_hint=()):
             n = T.node(n[2])
         if n[0] == 'rel':
             add_rel(n[1], n[2], n[3])
+            if n[1] == '!=':
+                # std::string::find(...) != npos  =>  the position found is below length()
+                for x, y in ((n[2], n[3]), (n[3], n[2])):
+                    xn = T.node(x)
+                    if xn[0] == 'mc' and xn[1].startswith('std::basic_string') and xn[1].split('::')[-1] in ('find', 'find_first_of', 'rfind') \
+                            and 'npos' in T.show(y, 3):
+                        for szname in ('length', 'size'):
+                            sz = T.mk('mc', xn[1].rsplit('::', 1)[0] + '::' + szname, xn[2])
+                            d = sub(upoly(a, sz), upoly(a, x))
+                            padd(d, {(): Fraction(1)}, -1)
+                            out.append(d)
         elif n[0] == 'if':
             # (x != a  ->  x == b): x is one of two constants, hence >= min and <= max
             c, F = T.node(n[1]), T.node(n[2])
